@@ -542,6 +542,25 @@ func (la *lockAnalysis) analyse(fn *ssa.Function, idPrefix string, used map[stri
 				tname := named.Obj().Name()
 				base := la.canon(x.X, 0)
 				pos := posString(e.fset, x.Pos())
+				if ws, ok := tc.Writers[fname]; ok && isWriteAccess(x, 0) && !rootIsLocalAlloc(base) {
+					// closed world of writers: only the listed functions (and closures inside them) may write this field
+					root := fn
+					for root.Parent() != nil {
+						root = root.Parent()
+					}
+					allowed := false
+					for _, w := range ws {
+						if w == root.Name() {
+							allowed = true
+						}
+					}
+					s := lockSite{name: fmt.Sprintf("%s#writers:%s.%s", fkey, tname, fname), tag: fmt.Sprintf("%s.writers.%s.%s", idPrefix, tname, fname), pos: pos, ok: allowed,
+						desc: fmt.Sprintf("%s.%s is written only by %s", tname, fname, strings.Join(ws, ", "))}
+					if !allowed {
+						s.why = fmt.Sprintf("%s writes %s.%s but is not one of its declared writers", root.Name(), tname, fname)
+					}
+					sites = append(sites, s)
+				}
 				if class == "" {
 					break
 				}
@@ -615,7 +634,7 @@ func (la *lockAnalysis) analyse(fn *ssa.Function, idPrefix string, used map[stri
 						continue
 					}
 					vname := cf.FreeVars[i].Name()
-					ok := la.singleStore(al) != nil || onlyLoaded(al)
+					ok := la.singleStore(al) != nil || onlyLoaded(al) || la.storesPrecedeSpawn(fn, al, ins)
 					s := lockSite{name: fmt.Sprintf("%s#lockset:spawn.%s", fkey, vname), tag: idPrefix + ".spawn_captures_stable", pos: posString(e.fset, ins.Pos()), ok: ok,
 						desc: "local variable " + vname + " captured by a spawned goroutine is never reassigned"}
 					if !ok {
@@ -751,4 +770,56 @@ func onlyLoaded(a *ssa.Alloc) bool {
 		}
 	}
 	return false
+}
+
+// storesPrecedeSpawn: no assignment to the captured variable can execute after the spawn (none is reachable from the
+// spawn in the control-flow graph) and no closure assigns it: the goroutine then only ever sees the final value.
+func (la *lockAnalysis) storesPrecedeSpawn(fn *ssa.Function, al *ssa.Alloc, spawn ssa.Instruction) bool {
+	if al.Referrers() == nil {
+		return true
+	}
+	// blocks reachable from the spawn's block through at least one edge
+	reach := map[*ssa.BasicBlock]bool{}
+	work := append([]*ssa.BasicBlock(nil), spawn.Block().Succs...)
+	for len(work) > 0 {
+		b := work[len(work)-1]
+		work = work[:len(work)-1]
+		if reach[b] {
+			continue
+		}
+		reach[b] = true
+		work = append(work, b.Succs...)
+	}
+	for _, r := range *al.Referrers() {
+		switch x := r.(type) {
+		case *ssa.Store:
+			if x.Addr != ssa.Value(al) {
+				return false // the variable's address is stored somewhere
+			}
+			if reach[x.Block()] {
+				return false
+			}
+			if x.Block() == spawn.Block() && !instrAfter(x, spawn) {
+				return false
+			}
+		case *ssa.UnOp, *ssa.DebugRef:
+		case *ssa.MakeClosure:
+			cf := x.Fn.(*ssa.Function)
+			for i, b := range x.Bindings {
+				if b == ssa.Value(al) && i < len(cf.FreeVars) && cf.FreeVars[i].Referrers() != nil {
+					for _, u := range *cf.FreeVars[i].Referrers() {
+						if st, ok := u.(*ssa.Store); ok && st.Addr == ssa.Value(cf.FreeVars[i]) {
+							return false
+						}
+						if _, ok := u.(*ssa.MakeClosure); ok {
+							return false // re-captured by a nested closure: not tracked
+						}
+					}
+				}
+			}
+		default:
+			return false
+		}
+	}
+	return true
 }
